@@ -431,7 +431,7 @@ func cfgID() configapi.ConfigurationID { return configapi.ConfigurationID{Target
 // init creates fresh stores and the configuration record (Status.Mastership set).
 // seed 0: no initial value (Committed.Values is nil when read back);
 // seed 1: the creator gives the entry one initial committed value with UpdateStatus (embedded);
-// seed 2: the creator passes the initial committed value to Create (which puts it into the side map).
+// seed 2: the creator passes the initial committed value to Create (which puts it into the committed side map).
 func (w *world) init(seed int) error {
 	w.close()
 	w.closed = false
